@@ -216,6 +216,19 @@ func (p *gcpPicker) getLeastBusySubConnRef() (*subConnRef, error) {
 	return minScRef, nil
 }
 
+// getLeastBusyReadySubConnRef returns the ready subConnRef with the least
+// active streams regardless of the low watermark, or nil if the picker has no
+// ready subConnRefs. It never asks the balancer to grow the pool.
+func (p *gcpPicker) getLeastBusyReadySubConnRef() *subConnRef {
+	var minScRef *subConnRef
+	for _, scRef := range p.scRefs {
+		if minScRef == nil || scRef.getStreamsCnt() < minScRef.getStreamsCnt() {
+			minScRef = scRef
+		}
+	}
+	return minScRef
+}
+
 func keysFromMessage(val reflect.Value, path []string, start int) ([]string, error) {
 	if val.Kind() == reflect.Pointer || val.Kind() == reflect.Interface {
 		val = val.Elem()
